@@ -97,6 +97,34 @@ CLAIMS = {
              "2^32 (the `as u32` casts are not modelled). Outside the property: FlashDataStorage::get panics for block "
              "lengths below W; indices at or above the capacity are the caller's contract.",
         design_ref="DESIGN.md section 6 (C16)"),
+    "C07": dict(
+        text="Proved in Lean at the storage-trait level (L0): recovery rebuilds the reconstructor state by `rehydrate` "
+             "(l recomputed from used/done); StageInv is an invariant of handle_block under every fault oracle; "
+             "rehydrate_equiv + reboot_transparent: outside the corner 'parity processing began but no row stored', "
+             "the rehydrated state is equivalent, so every later delivery has the same result and an equivalent state "
+             "(any number of reboots: rehydrate_idempotent; counters_agree); reboot_transparent_corner: in that corner "
+             "the rehydrated (stage-1) state completes at exactly the same fragment (rank argument through "
+             "done_iff_span and stage1_done_iff). Checked on the real SlotManager/Updater by twin runs with reboots at "
+             "(sampled) every position, comparing outcomes, counters, final check and final flash image.",
+        note="The theorems are about the L0 model; that try_recover_inner computes `rehydrate` of what the flash stores "
+             "hold is the L2 model's transcription, tied by the D5 correspondence (not by a theorem). "
+             "'Always recoverable until completed or cancelled' is the header-level statement of C13 (ring machine). "
+             "Defect fixed in /repo: counters after recovering a completed-but-unmarked session.",
+        design_ref="DESIGN.md section 6 (C07)"),
+    "C06": dict(
+        text="Proved in Lean at L0 for the repaired store order: crashDuring = rehydrate of the state after the first "
+             "failing storage call; crash_resume_resend / crash_resume_lost (crash outside finish, fragment re-sent or "
+             "lost: same results and equivalent state — up to orphan parity blocks — as the fault-free run), "
+             "crash_resume_seq (any finite history of deliveries, crashes, reboots) and crash_resume_sound (a final Done "
+             "then means the store holds the originals, via C02); decide-witnesses for the two ways it fails: "
+             "crash_in_finish_witness and orphan_block_restored_witness (a parity index is stored twice with different "
+             "data after a crash between block and row: harmless on map-like stores, corrupting on NOR). On the real "
+             "code: power loss at every mutating-op boundary of sampled sessions, recovery, completion, exact image.",
+        note="Known findings (no small safe repair): crash-site=finish, crash-site=row-lost. A crash after the firmware "
+             "slot's final mark leaves a completed, validating firmware slot and recovery reports none: accepted (the "
+             "update is complete). Liveness ('a full pass of the data always ends in Done') is checked by the harness, "
+             "not proved.",
+        design_ref="DESIGN.md section 6 (C06)"),
 }
 
 _TODO = "check not built yet in this session (planned in DESIGN.md section 6); not believed to be outside the technique"
